@@ -167,6 +167,7 @@ type SMInst struct {
 	LastIndex uint64 // last index handed to Update in this incarnation
 	Updates   uint64
 	Dead      func() bool
+	importChecked bool
 }
 
 func (i *SMInst) enter(m string) { i.env.SMEnter(i, m) }
